@@ -40,7 +40,7 @@ def main() -> None:
     text = f"""{MARK}
 
 {len(rows)} changes written by independent sub-agents (property text + scratch worktree only), each confirmed by me in a scratch
-worktree (demo passes clean / fails patched, whole suite still green). Rounds 1-2 are small subtle edits; rounds 5-8 are
+worktree (demo passes clean / fails patched, whole suite still green). Rounds 1-2 are small subtle edits; rounds 5-9 are
 refactoring commits (10-50 changed lines, new helpers / records / tables) with one wrong detail, whose repaired twins are in
 `/verif/refactors`. {ncaught} are reported as a VIOLATION by at least one check. Regenerate with `/venv/bin/python -m sa.seedtable`
 after `tools/refresh_meta.py`.
